@@ -2,6 +2,7 @@ package main
 
 import (
 	"encoding/json"
+	"regexp"
 	"flag"
 	"fmt"
 	"os"
@@ -35,6 +36,9 @@ func main() {
 		list     = flag.Bool("list", false, "debug: list repository functions")
 		explain  = flag.String("explain", "", "print a violations file in readable form")
 		region   = flag.Int("region", -1, "debug: start -dump at this block index")
+		maxp     = flag.Int("maxp", 12, "debug: max paths printed by -dump")
+		grep     = flag.String("grep", "", "debug: only print paths containing this substring")
+		keep     = flag.String("keep", "", "debug: regexp of callees/atoms to keep (enables merging)")
 	)
 	flag.Parse()
 	if *verifDir == "" {
@@ -85,7 +89,7 @@ func main() {
 			}
 			return
 		}
-		debugDump(p, *dump, *inl, *region)
+		debugDump(p, *dump, *inl, *region, *maxp, *grep, *keep)
 		return
 	}
 
@@ -121,7 +125,7 @@ func runProp(prop, tier, repo, verifDir string, r *propRunner) (code int) {
 	return c.Finish(verifDir, r.meta)
 }
 
-func debugDump(p *Program, name string, inl int, region int) {
+func debugDump(p *Program, name string, inl int, region int, maxp int, grep string, keep string) {
 	fn := p.Func(name)
 	if fn == nil {
 		fmt.Println("no such function; candidates:")
@@ -141,35 +145,74 @@ func debugDump(p *Program, name string, inl int, region int) {
 	if region >= 0 {
 		cfg.Entry = fn.Blocks[region]
 	}
+	if keep != "" {
+		re := regexp.MustCompile(keep)
+		cfg.Memo = true
+		cfg.KeepAtom = func(a Atom) bool { return re.MatchString(a.String()) }
+		cfg.KeepEvent = func(e *Event) bool {
+			return (e.Kind == "call" || e.Kind == "go") && re.MatchString(e.Callee) || e.Kind == "ret"
+		}
+	}
 	w := Walk(p, fn, cfg)
 	if w.Err != nil {
 		fmt.Println("ERR:", w.Err)
 	}
-	fmt.Printf("%d paths, %d visits\n", len(w.Paths), w.Visits)
+	fmt.Printf("%d paths, %d visits, %d merged\n", len(w.Paths), w.Visits, w.Merged)
+	printed := 0
+	trunc := func(s string) string {
+		if len(s) > 170 {
+			return s[:170] + "…"
+		}
+		return s
+	}
 	for i, pa := range w.Paths {
-		fmt.Printf("--- path %d end=%s rets=%v\n", i, pa.End, pa.Rets)
+		var lines []string
+		lines = append(lines, fmt.Sprintf("--- path %d end=%s rets=%v", i, pa.End, pa.Rets))
 		for _, e := range pa.Events {
 			ind := strings.Repeat("  ", e.Depth)
 			switch e.Kind {
 			case "cond":
-				fmt.Printf("   %sif %s\n", ind, e.Cond.String())
+				lines = append(lines, fmt.Sprintf("   %sif %s", ind, e.Cond.String()))
 			case "call":
+				if isLogCall(e.Callee) {
+					continue
+				}
 				d := ""
 				if e.Defd {
 					d = "deferred "
 				}
-				fmt.Printf("   %s%s%s(%s) -> %s  held=%v\n", ind, d, e.Callee, strings.Join(e.Args, ", "), e.Res, e.Held)
+				h := ""
+				if len(e.Held) > 0 {
+					h = fmt.Sprintf(" held=%v", e.Held)
+				}
+				lines = append(lines, fmt.Sprintf("   %s%s%s = %s(%s)%s", ind, d, e.Res, e.Callee, strings.Join(e.Args, ", "), h))
 			case "store":
-				fmt.Printf("   %s%s := %s\n", ind, e.Addr, e.Val)
+				if strings.Contains(e.Addr, "varargs") {
+					continue
+				}
+				lines = append(lines, fmt.Sprintf("   %s%s := %s", ind, e.Addr, e.Val))
 			case "mapupdate":
-				fmt.Printf("   %s%s[%s] = %s\n", ind, e.Addr, e.Key, e.Val)
+				if strings.HasPrefix(e.Addr, "makemap") {
+					continue
+				}
+				lines = append(lines, fmt.Sprintf("   %s%s[%s] = %s", ind, e.Addr, e.Key, e.Val))
 			case "ret", "inlret":
-				fmt.Printf("   %s%s %v\n", ind, e.Kind, e.Args)
+				lines = append(lines, fmt.Sprintf("   %s%s %v", ind, e.Kind, e.Args))
 			default:
-				fmt.Printf("   %s%s %s %s %v\n", ind, e.Kind, e.Callee, e.Addr, e.Extra)
+				lines = append(lines, fmt.Sprintf("   %s%s %s %s %v held=%v", ind, e.Kind, e.Callee, e.Addr, e.Extra, e.Held))
 			}
 		}
-		fmt.Printf("   state: %s\n", pa.State)
+		all := strings.Join(lines, "\n")
+		if grep != "" && !strings.Contains(all, grep) {
+			continue
+		}
+		if printed >= maxp {
+			break
+		}
+		printed++
+		for _, l := range lines {
+			fmt.Println(trunc(l))
+		}
 	}
 	var bl []string
 	for _, b := range fn.Blocks {
